@@ -241,6 +241,10 @@ def run_hermitian(inp):
     else:
         vec = np.zeros(n, dtype=complex)
     vec = vec * rng.choice([1.0, 1e-3, 37.0, 1e-10, 1e-13])   # the convergence test is relative to the norm of the start vector
+    if start == "random" and rng.random() < 0.2:
+        # a start vector stored as float64 (a real-valued MPS tensor) with a genuinely complex Hermitian operator: the Krylov basis
+        # must still be complex
+        vec = np.ascontiguousarray(vec.real, dtype=np.float64)
     m_max = rng.choice([1, 2, 3, 5, 8, 12, 25, 25, 25, 40])
     tol = rng.choice([1e-12, 1e-12, 1e-10, 1e-6, 1e-3])
     case, out, rec = lanczos_case(lambda x: a @ x, vec, dt, m_max, tol, "lanczos-" + start)
